@@ -71,12 +71,25 @@ PREDICATES.update({
   # no endpoint has two nodes
   'HM_inj': (['s'], 'forall_ref((r1, r2), Node, implies(inheap(s._heap, r1) and inheap(s._heap, r2) and r1.endpoint == r2.endpoint, r1 == r2), (r1.index, r2.index))'),
   # every current member is a target (ghost map endpoint -> its node)
-  'HM_sup': (['s'], 'forall(e, "any", implies(has_key(s._servers, e), has_key(s.g_node, e) and allocated(s.g_node[e]))) and '
-                    'forall(e, "any", implies(has_key(s._servers, e), inheap(s._heap, s.g_node[e]))) and '
-                    'forall(e, "any", implies(has_key(s._servers, e), s.g_node[e].endpoint == e))'),
+  'HM_sup1': (['s'], 'forall(e, "any", implies(has_key(s._servers, e), has_key(s.g_node, e) and allocated(s.g_node[e])))'),
+  'HM_sup2': (['s'], 'forall(e, "any", implies(has_key(s._servers, e), inheap(s._heap, s.g_node[e])))'),
+  'HM_sup3': (['s'], 'forall(e, "any", implies(has_key(s._servers, e), s.g_node[e].endpoint == e))'),
+  'HM_sup': (['s'], 'HM_sup1(s) and HM_sup2(s) and HM_sup3(s)'),
   'HM_all': (['s'], 's._heap[0].endpoint is None and allocated(s._servers) and allocated(s.g_node) and HM_sub(s) and HM_inj(s) and HM_sup(s)'),
   'HeapMem': (['s'], 'HeapInv(s) and HM_all(s)'),
 })
+
+_HOOK_ENS = [
+  'HeapInv(self)', 'self._downq == old(self._downq)', 'self._heap[0] == old(self._heap[0])',
+  'forall_ref(r, Node, implies(old(allocated(r)), r.g_out == old(r.g_out) and r.load == old(r.load) and r.g_inq == old(r.g_inq) and '
+  '           r.downq == old(r.downq) and r.g_rank == old(r.g_rank) and r.endpoint == old(r.endpoint) and r.channel == old(r.channel)), r.g_out)',
+  # an existing member may be closed by the hook only if it holds no request (a contracted idle member)
+  'forall_ref(r, Node, implies(old(allocated(r)) and r.g_out > 0, r.channel.state == old(r.channel.state)), r.g_out)',
+  'forall_ref(r, Node, implies(old(allocated(r)), r.channel.state == old(r.channel.state) or r.channel.state == ChannelState.Closed), r.g_out)',
+]
+_HOOK_MOD = ['Node.index', 'Node.load', 'Node.downq', 'Node.avg_load', 'Node.channel', 'Node.endpoint', 'Node.g_out', 'Node.g_inq', 'Node.g_rank',
+             'list[Node]', 'HeapBalancerSink._size', 'HeapBalancerSink.g_added', 'HeapBalancerSink.g_removed',
+             'Channel.state', 'Channel.g_closes', 'Channel.g_opens', '$cls']
 
 _SWAP_FRAME = [
   'len(heap) == old(len(heap))',
@@ -176,29 +189,31 @@ FUNCTIONS = {
   ),
 
   # ---------------------------------------------------------------- balancer hooks
+  # Behavioural contracts of the overridable hooks, weak enough for both balancers: the heap balancer's own hooks do
+  # nothing; the aperture balancer's adjust the aperture, i.e. add one member or take one out (C06).  Callers may rely on
+  # the heap invariant, on the accounting of every existing node and on the down list being untouched -- not on positions
+  # or on the size.
   'HeapBalancerSink._OnNodeDown': dict(
     cls='HeapBalancerSink', params={'node': 'Node'}, returns='AsyncResult',
     requires=['HeapInv(self)'],
-    ensures=['HeapInv(self)', 'self._size >= old(self._size)',
-             'forall(k, 1, old(self._size) + 1, self._heap[k] == old(self._heap[k]))',
-             'self._downq == old(self._downq)'],
-    modifies=[], drop=['AsyncResult'], props=['C03', 'C04'],
+    ensures=_HOOK_ENS + ['self._size >= old(self._size)'],
+    modifies=_HOOK_MOD, allocates='any', drop=['AsyncResult'], props=['C03', 'C04'],
+    # the heap balancer's own hooks change no membership (C05 is claimed for the heap balancer only)
+    aspects={'mem': dict(ensures=['forall_ref(r, Node, inheap(self._heap, r) == old(inheap(self._heap, r)), r.index)', 'implies(old(HM_all(self)), self._heap[0].endpoint is None and allocated(self._servers) and allocated(self.g_node))', 'implies(old(HM_all(self)), HM_sub(self))', 'implies(old(HM_all(self)), HM_inj(self))', 'implies(old(HM_all(self)), HM_sup1(self))', 'implies(old(HM_all(self)), HM_sup2(self))', 'implies(old(HM_all(self)), HM_sup3(self))'], props=['C05'])},
   ),
   'HeapBalancerSink._OnPut': dict(
     cls='HeapBalancerSink', params={'node': 'Node'},
     requires=['HeapInv(self)'],
-    ensures=['HeapInv(self)', 'self._size >= old(self._size)',
-             'forall(k, 1, old(self._size) + 1, self._heap[k] == old(self._heap[k]))',
-             'self._downq == old(self._downq)'],
-    modifies=[], drop=['AsyncResult'], props=['C03', 'C04'],
+    ensures=_HOOK_ENS,
+    modifies=_HOOK_MOD, allocates='any', drop=['AsyncResult'], props=['C03', 'C04'],
+    aspects={'mem': dict(ensures=['forall_ref(r, Node, inheap(self._heap, r) == old(inheap(self._heap, r)), r.index)', 'implies(old(HM_all(self)), self._heap[0].endpoint is None and allocated(self._servers) and allocated(self.g_node))', 'implies(old(HM_all(self)), HM_sub(self))', 'implies(old(HM_all(self)), HM_inj(self))', 'implies(old(HM_all(self)), HM_sup1(self))', 'implies(old(HM_all(self)), HM_sup2(self))', 'implies(old(HM_all(self)), HM_sup3(self))'], props=['C05'])},
   ),
   'HeapBalancerSink._OnGet': dict(
     cls='HeapBalancerSink', params={'node': 'Node'},
     requires=['HeapInv(self)'],
-    ensures=['HeapInv(self)', 'self._size >= old(self._size)',
-             'forall(k, 1, old(self._size) + 1, self._heap[k] == old(self._heap[k]))',
-             'self._downq == old(self._downq)'],
-    modifies=[], drop=['AsyncResult'], props=['C03', 'C04'],
+    ensures=_HOOK_ENS,
+    modifies=_HOOK_MOD, allocates='any', drop=['AsyncResult'], props=['C03', 'C04'],
+    aspects={'mem': dict(ensures=['forall_ref(r, Node, inheap(self._heap, r) == old(inheap(self._heap, r)), r.index)', 'implies(old(HM_all(self)), self._heap[0].endpoint is None and allocated(self._servers) and allocated(self.g_node))', 'implies(old(HM_all(self)), HM_sub(self))', 'implies(old(HM_all(self)), HM_inj(self))', 'implies(old(HM_all(self)), HM_sup1(self))', 'implies(old(HM_all(self)), HM_sup2(self))', 'implies(old(HM_all(self)), HM_sup3(self))'], props=['C05'])},
   ),
 
   'HeapBalancerSink.__Get': dict(
@@ -211,24 +226,30 @@ FUNCTIONS = {
       'result.channel.state == ChannelState.Open or result.load >= 0',
       # the root is a minimum of the repository's own (load, index) order over all members
       'forall(k, 1, self._size + 1, hle(result, self._heap[k]))',
+      # taking a member changes nobody's outstanding count (the hook may add or retire members, never requests)
+      'forall_ref(r, Node, implies(old(allocated(r)), r.g_out == old(r.g_out) and r.endpoint == old(r.endpoint) and r.channel == old(r.channel)), r.g_out)',
+      'self._heap[0] == old(self._heap[0])',
     ],
+    allocates='any',
     # C05: taking a member for a request changes nobody's membership
-    aspects={'mem': dict(ensures=['forall_ref(r, Node, inheap(self._heap, r) == old(inheap(self._heap, r)), r.index)', 'implies(old(HM_all(self)), HM_all(self))'], loops={0: ['forall_ref(r, Node, inheap(self._heap, r) == old(inheap(self._heap, r)), r.index)', 'implies(old(HM_all(self)), HM_all(self))'], 1: ['forall_ref(r, Node, inheap(self._heap, r) == old(inheap(self._heap, r)), r.index)', 'implies(old(HM_all(self)), HM_all(self))']}, props=['C05'])},
+    aspects={'mem': dict(ensures=['forall_ref(r, Node, inheap(self._heap, r) == old(inheap(self._heap, r)), r.index)', 'implies(old(HM_all(self)), self._heap[0].endpoint is None and allocated(self._servers) and allocated(self.g_node))', 'implies(old(HM_all(self)), HM_sub(self))', 'implies(old(HM_all(self)), HM_inj(self))', 'implies(old(HM_all(self)), HM_sup1(self))', 'implies(old(HM_all(self)), HM_sup2(self))', 'implies(old(HM_all(self)), HM_sup3(self))'], loops={0: ['forall_ref(r, Node, inheap(self._heap, r) == old(inheap(self._heap, r)), r.index)', 'implies(old(HM_all(self)), self._heap[0].endpoint is None and allocated(self._servers) and allocated(self.g_node))', 'implies(old(HM_all(self)), HM_sub(self))', 'implies(old(HM_all(self)), HM_inj(self))', 'implies(old(HM_all(self)), HM_sup1(self))', 'implies(old(HM_all(self)), HM_sup2(self))', 'implies(old(HM_all(self)), HM_sup3(self))'], 1: ['forall_ref(r, Node, inheap(self._heap, r) == old(inheap(self._heap, r)), r.index)', 'implies(old(HM_all(self)), self._heap[0].endpoint is None and allocated(self._servers) and allocated(self.g_node))', 'implies(old(HM_all(self)), HM_sub(self))', 'implies(old(HM_all(self)), HM_inj(self))', 'implies(old(HM_all(self)), HM_sup1(self))', 'implies(old(HM_all(self)), HM_sup2(self))', 'implies(old(HM_all(self)), HM_sup3(self))']}, props=['C05'])},
     lemmas=['k: lemma_root_min(self._heap, self._size, k)'],
-    modifies=['Node.load', 'Node.index', 'Node.downq', 'Node.g_inq', 'Node.g_rank', 'list[Node].items', 'HeapBalancerSink._downq'],
+    modifies=_HOOK_MOD + ['HeapBalancerSink._downq'],
     ghost=[
       {'before': 'n = n.downq', 'do': ['n.g_inq = False']},
       {'after': 'n.downq = None', 'do': ['n.g_inq = False']},
       {'after': 'n.downq = self._downq', 'do': ['n.g_inq = True', 'n.g_rank = (self._downq.g_rank - 1) if self._downq is not None else 0']},
     ],
     loops={
-      0: dict(invariant=['HeapInv(self)', 'self._size >= old(self._size)', 'self._size >= 1'],
-              modifies=['Node.load', 'Node.index', 'Node.downq', 'Node.g_inq', 'Node.g_rank', 'list[Node].items', 'HeapBalancerSink._downq']),
+      0: dict(invariant=['HeapInv(self)', 'self._size >= old(self._size)', 'self._size >= 1', 'self._heap[0] == old(self._heap[0])',
+                         'forall_ref(r, Node, implies(old(allocated(r)), r.g_out == old(r.g_out) and r.endpoint == old(r.endpoint) and r.channel == old(r.channel)), r.g_out)'],
+              modifies=_HOOK_MOD + ['HeapBalancerSink._downq'], allocates='any'),
       1: dict(invariant=['HeapInv(self)', 'self._size >= old(self._size)', 'self._size >= 1',
                          'implies(n is not None, n.g_inq)',
                          'implies(m is None, n == self._downq)',
-                         'implies(m is not None, m.g_inq and m.downq == n)'],
-              modifies=['Node.load', 'Node.index', 'Node.downq', 'Node.g_inq', 'Node.g_rank', 'list[Node].items', 'HeapBalancerSink._downq']),
+                         'implies(m is not None, m.g_inq and m.downq == n)', 'self._heap[0] == old(self._heap[0])',
+                         'forall_ref(r, Node, implies(old(allocated(r)), r.g_out == old(r.g_out) and r.endpoint == old(r.endpoint) and r.channel == old(r.channel)), r.g_out)'],
+              modifies=_HOOK_MOD + ['HeapBalancerSink._downq'], allocates='any'),
     },
     props=['C03', 'C04'],
   ),
@@ -237,12 +258,14 @@ FUNCTIONS = {
     cls='HeapBalancerSink', params={'n': 'Node'},
     requires=['HeapInv(self)', 'allocated(n)', 'n != self._heap[0]', 'n.g_out >= 1'],
     ensures=['HeapInv(self)', 'n.g_out == old(n.g_out) - 1',
-             'forall_ref(r, Node, implies(r != n, r.g_out == old(r.g_out)), r.g_out)',
+             'forall_ref(r, Node, implies(r != n and old(allocated(r)), r.g_out == old(r.g_out)), r.g_out)',
              # a node that has left the heap is closed exactly when its last request is released
              'implies(old(n.index) < 0 and n.g_out == 0, n.channel.state == ChannelState.Closed or n.channel.state == old(n.channel.state))',
-             'implies(not (old(n.index) < 0 and n.g_out == 0), forall_ref(c, Channel, c.state == old(c.state), c.state))'],
-    aspects={'mem': dict(ensures=['forall_ref(r, Node, inheap(self._heap, r) == old(inheap(self._heap, r)), r.index)', 'implies(old(HM_all(self)), HM_all(self))'], props=['C05'])},
-    modifies=['Node.load', 'Node.index', 'Node.g_out', 'list[Node].items', 'Channel.state', 'Channel.g_closes'],
+             # a release never closes a member that still holds requests (the aperture hook may retire an idle one)
+             'forall_ref(r, Node, implies(old(allocated(r)) and r.g_out > 0 and r.channel != n.channel, r.channel.state == old(r.channel.state)), r.g_out)',
+             'implies(n.g_out > 0, n.channel.state == old(n.channel.state))'],
+    aspects={'mem': dict(ensures=['forall_ref(r, Node, inheap(self._heap, r) == old(inheap(self._heap, r)), r.index)', 'implies(old(HM_all(self)), self._heap[0].endpoint is None and allocated(self._servers) and allocated(self.g_node))', 'implies(old(HM_all(self)), HM_sub(self))', 'implies(old(HM_all(self)), HM_inj(self))', 'implies(old(HM_all(self)), HM_sup1(self))', 'implies(old(HM_all(self)), HM_sup2(self))', 'implies(old(HM_all(self)), HM_sup3(self))'], props=['C05'])},
+    modifies=_HOOK_MOD, allocates='any',
     ghost=[
       {'after': 'n.load -= 1', 'do': ['n.g_out = n.g_out - 1']},
       {'before': 'n.load = self.Idle', 'do': ['assert False']},   # the clamp is unreachable
@@ -306,9 +329,8 @@ def lemma_root_min(heap, n, k):
     ensures=['HeapInv(self)', 'put_called[0]',
              'implies(old(put_called[0]), forall_ref(r, Node, r.g_out == old(r.g_out) and r.load == old(r.load), r.g_out) and self._size == old(self._size))',
              'implies(not old(put_called[0]), n.g_out == old(n.g_out) - 1)',
-             'forall_ref(r, Node, implies(r != n, r.g_out == old(r.g_out)), r.g_out)'],
-    modifies=['Node.load', 'Node.index', 'Node.g_out', 'list[Node]', 'list[bool]', 'Channel.state', 'Channel.g_closes',
-              'HeapBalancerSink._size'],
+             'forall_ref(r, Node, implies(r != n and old(allocated(r)), r.g_out == old(r.g_out)), r.g_out)'],
+    modifies=_HOOK_MOD + ['list[bool]'], allocates='any',
     props=['C04'],
   ),
 
@@ -319,7 +341,7 @@ def lemma_root_min(heap, n, k):
     requires=['HeapInv(self)'],
     ensures=[],
     modifies=['*'],
-    allocates=True,
+    allocates='any',
     ghost=[
       {'after': 'n = self.__Get()', 'do': [
         'g_sel_out = n.g_out',
